@@ -52,12 +52,12 @@ Definition fpcmp (absolute : bool) (a b : Z) : bool * bool * bool :=
 (* cmp (absolute mode) + Swap(a, b, ilt): the operand of larger magnitude first *)
 Definition add_swap (a b : Z) : Z * Z :=
   let ilt := snd (fpcmp true a b) in (mux2 ilt a b, mux2 ilt b a).
-(* the datapath after the swap; ew = width of the ediff wire (5 in the circuit) *)
+(* the datapath after the swap; ew = width of the ediff wire (8 in the circuit since /repo 150f909; it was 5) *)
 Definition add_core_gen (ew : Z) (a2 b2 : Z) : Z :=
   let sa := fp_s a2 in let sb := fp_s b2 in
   let ma := fp_m a2 in let mb := fp_m b2 in                            (* 24 bits *)
   let ea := fp_e a2 in let eb := fp_e b2 in                            (* raw exponents, 8 bits *)
-  let ediff := sub_w ew ea eb in                                       (* 5 bits (!) *)
+  let ediff := sub_w ew ea eb in                                       (* ew bits *)
   let mb3 := shr_w 24 mb ediff in                                      (* 24 bits *)
   let m_a_plus_b := add_w 25 ma mb3 in                                 (* 25 bits *)
   let m_a_minus_b := sub_w 25 ma mb3 in                                (* 25 bits *)
@@ -69,10 +69,10 @@ Definition add_core_gen (ew : Z) (a2 b2 : Z) : Z :=
   let er := add_w 8 pre_er 1 in                                        (* 8 bits *)
   let mr3 := rng 23 1 mr2 in                                           (* 23 bits; the round_up wires drive nothing *)
   cat_sem sa er mr3.                                                   (* sr = Buf(sa) *)
-Definition add_core := add_core_gen 5.
-Definition fpadd (a b : Z) : Z := add_core (fst (add_swap a b)) (snd (add_swap a b)).
-(* NOT the circuit: the same datapath with an 8-bit ediff wire (the defect of the 5-bit wire neutralised) *)
-Definition fpadd_wide (a b : Z) : Z := add_core_gen 8 (fst (add_swap a b)) (snd (add_swap a b)).
+(* the adder with an ew-bit ediff wire; the check reads ew off the live circuit and ties the real block to that instance *)
+Definition fpadd_w (ew a b : Z) : Z := add_core_gen ew (fst (add_swap a b)) (snd (add_swap a b)).
+(* the circuit of the current /repo: ediff = self.wire('ediff', 8) *)
+Definition fpadd : Z -> Z -> Z := fpadd_w 8.
 
 (* ---- FPMult_SP(a, b, r) *)
 Definition fpmul (a b : Z) : Z :=
@@ -114,7 +114,8 @@ Definition f2i_shifted (a : Z) : Z :=
 Definition f2i_too_big (a : Z) : bool :=
   let real_e := fp_real_e a in
   xorb (fst (fst (cmp_w 8 real_e 30))) (xorb (Z.testbit real_e 7) (Z.testbit 30 7)).
-(* plost_hi = 32 is the circuit: Range(shifted, 32, 0) *)
+(* plost_hi = upper bound of the p_lost range: Range(shifted, plost_hi, 0); 31 in the circuit since /repo 48843fa (it was 32);
+   the check reads it off the live circuit and ties the real block to that instance *)
 Definition fp2int_gen (plost_hi : Z) (a : Z) : Z * bool * bool * bool :=
   let sign := fp_s a in
   let is_denorm := fp_isdenorm a in
@@ -135,4 +136,5 @@ Definition fp2int_gen (plost_hi : Z) (a : Z) : Z * bool * bool * bool :=
   let r := trunc 32 (Z.lor (Z.lor (if select_denorm then 0 else 0) (if select_small then 0 else 0))
                            (if select_default then final_m else 0)) in
   (r, p_lost, is_denorm, invalid).
-Definition fp2int := fp2int_gen 32.
+(* the circuit of the current /repo *)
+Definition fp2int := fp2int_gen 31.
